@@ -40,6 +40,7 @@ class AdjointTape(Interpretation):
         super().__init__("adjoint")
         self.tape = []
         self._old_interpretation = None
+        self._saved_interpretations = []
         self._eager_to_lazy = {}
 
     def interpret(self, cls, *args):
@@ -65,9 +66,18 @@ class AdjointTape(Interpretation):
         return result
 
     def __enter__(self):
+        # Entering the same tape again while it is active must not lose the
+        # interpretation the outer entry delegates to.
+        self._saved_interpretations.append(self._old_interpretation)
         self.tape = []
         self._old_interpretation = interpreter.get_interpretation()
         return super().__enter__()
+
+    def __exit__(self, *args):
+        try:
+            return super().__exit__(*args)
+        finally:
+            self._old_interpretation = self._saved_interpretations.pop()
 
     def adjoint(self, sum_op, bin_op, root, targets=None, *, batch_vars=set()):
         zero = to_funsor(ops.UNITS[sum_op])
